@@ -118,9 +118,19 @@ def r_module(ctx: Ctx, model, eff: Effects, eps):
         for fn in m.functions.values():
             stores = [n for n in ast.walk(fn.node) if isinstance(n, ast.Subscript) and isinstance(n.ctx, ast.Store)
                       and isinstance(n.value, ast.Name) and n.value.id == name]
+            def _root(e):
+                depth = 0
+                while isinstance(e, ast.Subscript):
+                    e = e.value
+                    depth += 1
+                return (e.id if isinstance(e, ast.Name) else None), depth
             other = [n for n in ast.walk(fn.node) if isinstance(n, ast.Call) and isinstance(n.func, ast.Attribute)
-                     and isinstance(n.func.value, ast.Name) and n.func.value.id == name
-                     and n.func.attr in ("update", "pop", "clear", "setdefault", "popitem")]
+                     and _root(n.func.value)[0] == name
+                     and n.func.attr in ("update", "pop", "clear", "setdefault", "popitem", "append", "extend", "insert",
+                                         "remove", "sort", "reverse", "__setitem__", "__delitem__")]
+            # stores into an entry of the cache (name[key][...] = ...) mutate a cached value
+            other += [n for n in ast.walk(fn.node) if isinstance(n, ast.Subscript) and isinstance(n.ctx, (ast.Store, ast.Del))
+                      and _root(n)[0] == name and _root(n)[1] >= 2]
             dels = [n for n in ast.walk(fn.node) if isinstance(n, ast.Delete)
                     and any(isinstance(t, ast.Subscript) and isinstance(t.value, ast.Name) and t.value.id == name for t in n.targets)]
             if not stores and not other and not dels:
@@ -155,7 +165,31 @@ def r_module(ctx: Ctx, model, eff: Effects, eps):
     ctx.analysed["functions_scanned_for_memoisation"] = nfun
 
 
+_KEY_SEEN = set()
+
+
+def _key_complete(ctx, fi, field, if_node, ctor):
+    """the rebuild test compares exactly the interp_* parameters the constructor receives, with the same expressions:
+    a parameter that shapes the interpolator but is not part of the key makes the answer depend on earlier queries"""
+    if (fi.qualname, if_node.lineno) in _KEY_SEEN:
+        return
+    _KEY_SEEN.add((fi.qualname, if_node.lineno))
+    compared = {}
+    for c in ast.walk(if_node.test):
+        if isinstance(c, ast.Compare) and len(c.ops) == 1 and isinstance(c.ops[0], ast.NotEq) and isinstance(c.left, ast.Attribute) \
+                and isinstance(c.left.value, ast.Attribute) and c.left.value.attr == field:
+            compared[c.left.attr] = ast.unparse(c.comparators[0])
+    passed = {k.arg: ast.unparse(k.value) for k in ctor.keywords if k.arg and k.arg.startswith("interp_")}
+    ok = compared == passed and not any(isinstance(b, ast.BoolOp) and isinstance(b.op, ast.And) for b in [if_node.test])
+    ctx.ob(ok, Finding("C04.R-cache-use", fi.where, f"{fi.short}|cache-key:{field}",
+                       f"line {if_node.lineno}: the rebuild test of {field} compares {compared} but the interpolator is built with {passed}: "
+                       "every interp_* parameter must be both compared and passed (same expression), otherwise a query after a different "
+                       "query reuses an interpolator built for other parameters"),
+           nontrivial_key=("cache-key", fi.qualname, field))
+
+
 def r_cache_use(ctx: Ctx, model):
+    _KEY_SEEN.clear()
     ctx.rule("R-cache-use: l_interpolator / p_interpolator are read only inside the canonical rebuild test "
              "(whose body re-assigns the field from IsothermInterpolator(...)) or as the callee of the interpolation")
     reads = 0
@@ -182,6 +216,7 @@ def r_cache_use(ctx: Ctx, model):
                             if isinstance(st, ast.Assign) and any(isinstance(t, ast.Attribute) and t.attr == n.attr for t in st.targets) \
                                     and isinstance(st.value, ast.Call) and ast.unparse(st.value.func).endswith("IsothermInterpolator"):
                                 ok = True
+                                _key_complete(ctx, fi, n.attr, par, st.value)
                 ctx.ob(ok, Finding("C04.R-cache-use", fi.where, f"{fi.short}|reads:{n.attr}",
                                    f"line {n.lineno}: {fi.short} reads the cache field {n.attr} outside the rebuild test / "
                                    f"interpolation call (`{ast.unparse(parents.get(n, n))[:90]}`): the outcome depends on which "
